@@ -94,6 +94,19 @@ let run (cmd : string) (a : v) : v =
           vbool (fst fl); vbool (snd fl);
           vlist (vopt (vlist vnat)) gw; vlist (vlist vnat) rv;
           vlist (vlist (fun (b, s) -> L [vbool b; vopt vnat s])) per ]
+  | "trace_run", L ops ->
+      let op_of = function
+        | L [S "call"; I n; I d; S "ret"; I v] -> Call (nat_of_int n, z_of_int d, Ret (nat_of_int v))
+        | L [S "call"; I n; I d; S "raise"; I e] -> Call (nat_of_int n, z_of_int d, Raise (nat_of_int e))
+        | L [S "get"; I av; I mh] -> Get ((av <> 0), (if mh < 0 then None else Some (nat_of_int mh)))
+        | L [S "clear"] -> Clear
+        | _ -> failwith "trace op" in
+      let (_, obs) = Model.run [] (List.map op_of ops) in
+      vlist (function
+        | Returned v -> L [S "ret"; vnat v]
+        | Raised e -> L [S "raise"; vnat e]
+        | Stats s -> L [S "stats"; vlist (fun (n, (sm, dv)) -> L [vnat n; I (int_of_z sm); vnat dv]) s]
+        | Cleared -> L [S "cleared"]) obs
   | _ -> failwith ("unknown command or bad argument: " ^ cmd)
 
 let () =
